@@ -1217,9 +1217,11 @@ class ChoicePayloadDecoder(ConstructedPayloadDecoderBase):
                     **dict(options, allowEoo=True))
 
             else:
+                # untagged CHOICE has no end-of-octets of its own: the
+                # one ahead belongs to the chosen component
                 iterator = decodeFun(
                     substrate, asn1Object.componentType.tagMapUnique,
-                    tagSet, length, state, **dict(options, allowEoo=True))
+                    tagSet, length, state, **options)
 
             for component in iterator:
 
